@@ -11,7 +11,7 @@ m = {
     "version": 1,
     "setup_cmd": "./check build",
     "hooks": {"guard": "verif (Go build tag)",
-              "enable": "go1.26.8 test -c -tags verif in /verif/sim (module github.com/basecamp/kamal-proxy/verif with replace github.com/basecamp/kamal-proxy => /repo)",
+              "enable": "go test -c -tags verif in /verif/sim with the go1.24.2 toolchain and GOEXPERIMENT=synctest (VERIF_GO=1.26: go1.26.8); a second build of a scratch copy rewritten by /verif/sim/autoyield adds -tags autoyield (module github.com/basecamp/kamal-proxy/verif with replace github.com/basecamp/kamal-proxy => /repo)",
               "baseline_off_cmd": "cd /repo && GOFLAGS=-mod=mod GOPROXY=off go test -vet=off -count=1 ./...",
               "source_commits": list(reversed(hook_commits)), "add_only": True},
     "engines": [{"name": "sim", "path": "/verif/sim", "serves_properties": sorted(meta),
